@@ -68,6 +68,10 @@ def judge(pre, op, post, res, obs, meta):
         for p, w in diffs:
             if w == "created" and p.startswith("root/") and p.split("/")[-1] == "ascmhl" and obs["meta_post"][p][0] == "d":
                 created_ascmhl.add(p)
+        # ascmhl folders that received a new manifest in this run: only there may the chain file (and the folder's own
+        # mtime) change - a history that gets no generation is not "in scope" (create -sf only touches the histories on the
+        # path to the named files)
+        got_manifest = {p.rsplit("/", 1)[0] for p, w in diffs if w == "created" and p.endswith(".mhl") and "/ascmhl/" in p}
         for p, w in diffs:
             if not (p == "root" or p.startswith("root/")):
                 V("create-outside-root", f"{ops.label(op)}: {p} {w}", what=w)
@@ -79,8 +83,12 @@ def judge(pre, op, post, res, obs, meta):
                 hroot = "/".join(parts[:i])
                 in_scope = R == "" or hroot == R or hroot.startswith(R + "/")
                 tail = parts[i + 1:]
+                folder = "root/" + "/".join(parts[:i + 1])
                 if not in_scope:
                     V("create-out-of-scope-history", f"{ops.label(op)}: {rel} {w} (history outside the command's root)", what=w)
+                elif folder not in got_manifest:
+                    V("create-touched-history-without-generation", f"{ops.label(op)}: {rel} {w} although this history received no "
+                      f"new generation in this run", what=w, sf=bool(o.get("sf")))
                 elif not tail:
                     if w not in ("created", "mtime"):
                         V("create-ascmhl-folder", f"{ops.label(op)}: folder {rel} {w}", what=w)
